@@ -98,6 +98,10 @@ def install(I, B):
     def new(I, st, cls, **attrs):
         if not isinstance(cls, ClassVal):
             raise Unsupported("new() of non-repo class")
+        if I.is_subclass(cls, BuiltinClass("list", list)) and "__list__" not in attrs:
+            # cls.__new__(cls) of a list subclass is an empty list
+            attrs = dict(attrs)
+            attrs["__list__"] = st.alloc(ListE([]))
         return st.alloc(ObjE(cls, attrs))
 
     reg("new", new)
